@@ -23,13 +23,15 @@ package interp
 
 //@ pred arith(a): a == aAdd || a == aAnd || a == aAndNot || a == aMul || a == aOr || a == aQuo || a == aRem || a == aShl || a == aShr || a == aSub || a == aXor
 //@ lit Interpreter.cfg case:binaryExpr#4 () ()
-//@   props C02
+//@   props C02 C12
 //@   opt safety = off
 //@   opt opaque-calls = *
 //@   opt opaque-havoc = none
+//@   opt record-calls = binaryExpr
 //@   requires [assume] n != nil && n.anc != nil && len(n.child) == 2 && n.child[0] != nil && n.child[1] != nil && len(n.anc.child) >= 2 && n.anc.child[0] != nil && n.anc.child[0] != n && n.anc.child[0] != n.child[0] && n.anc.child[0] != n.child[1] && n.anc != n && n.child[0] != n && n.child[1] != n
 //@   requires [assume] the-case-guard: n.kind == binaryExpr
 //@   requires [assume] interface-context-is-not-propagated-in-pre-order: n.typ == nil
+//@   ensures [C12] operands-checked-by-the-binary-rule: called(binaryExpr) && lastArg(binaryExpr, 0) == n && (lastRes(binaryExpr, 0) != nil ==> err != nil && n.gen == old(n.gen) && n.findex == old(n.findex))
 //@   ensures operator-into-empty-interface-has-concrete-type: err == nil && arith(n.action) && !n.rval.IsValid() && n.anc.kind == assignStmt && n.anc.action == aAssign && n.anc.nleft == 1 && childPos(n) - n.anc.nright == 0 && old(isEmptyInterface(n.anc.child[0].typ)) ==> n.typ != nil && n.typ.val != nil
 
 // Unary operators (-x, ^x, !x, +x): their generators have no interface form, so the node keeps the type
@@ -38,13 +40,15 @@ package interp
 //@ trusted func isInterface(t) (r)
 //@   pure
 //@ lit Interpreter.cfg case:unaryExpr#4 () ()
-//@   props C02
+//@   props C02 C12
 //@   opt safety = off
 //@   opt opaque-calls = *
 //@   opt opaque-havoc = none
+//@   opt record-calls = unaryExpr
 //@   requires [assume] n != nil && n.anc != nil && len(n.child) == 1 && n.child[0] != nil && n.child[0] != n && n.anc != n && sc != nil && sc.def != nil && sc.def != n && sc.def.typ != nil
 //@   requires [assume] the-case-guard: n.kind == unaryExpr
 //@   let op: n.action == aNeg || n.action == aBitNot || n.action == aNot || n.action == aPos
+//@   ensures [C12] operand-checked-by-the-unary-rule: called(unaryExpr) && lastArg(unaryExpr, 0) == n && (lastRes(unaryExpr, 0) != nil ==> err != nil && n.typ == old(n.typ) && n.findex == old(n.findex))
 //@   ensures into-interface-variable-keeps-operand-type: err == nil && op && !n.rval.IsValid() && old(n.child[0].typ) != nil && n.anc.kind == assignStmt && n.anc.action == aAssign && n.anc.nright == 1 && isInterface(old(n.anc.child[childPos(n)-n.anc.nright].typ)) ==> n.typ == old(n.child[0].typ)
 //@   ensures into-interface-result-keeps-operand-type: err == nil && op && !n.rval.IsValid() && old(n.child[0].typ) != nil && n.anc.kind == returnStmt && isInterface(sc.def.typ.ret[childPos(n)]) ==> n.typ == old(n.child[0].typ)
 
